@@ -55,7 +55,13 @@ def locked_fn(case, wit):
 
 
 def run(tier, seed):
-    res = run_generic("C03", tier, seed, factory, WIT, RULE, layouts=True)
+    # "jump": the clock may also be set 2 or 3 steps ahead in one call (Market._set_time) over books holding orders
+    # with several times-to-live; the rounds that follow must still terminate and clear the book
+    from ..explore_m import alphabet
+    alph = {"jump": alphabet(vols=(1, 2), mvols=(1,), ttls=(None, 1, 2), mttls=(None, 1), cancels=2, dead=()) + [("J", 2), ("J", 3)]}
+    d = 3 if tier == "quick" else 4
+    extra = [(sd, "cont", d, "jump") for sd in ("expiring", "same_expiry", "mixed_ttl")] + [("empty", "cont", d, "jump")]
+    res = run_generic("C03", tier, seed, factory, WIT, RULE, layouts=True, extra_alph=alph, extra_plan=extra)
     from ..enum_f import run_grid
     ev0, dn0 = res.coverage["evaluations"], res.coverage["distinct_nontrivial"]
     run_grid(res, "locked_book_per_grid_level", list(locked_cases(tier)), locked_fn, seed)
